@@ -339,6 +339,16 @@ class Session:
                     ctx.probe('bootstrap replications compared by name')
             self.cmp(f'final log likelihood [{algo}] under the two namings', r0.data.logLike, r1.data.logLike, rel=1e-6)
             e0, e1 = r0.get_beta_values(), r1.get_beta_values()
+            # estimates requested by name: any subset of the names, in any order
+            for r, e_all in ((r0, e0), (r1, e1)):
+                names_u = list(r.data.betaNames)
+                rs_ = random.Random(len(names_u) * 31 + len(algo))
+                sub = rs_.sample(names_u, rs_.randrange(1, len(names_u) + 1))
+                got_ = r.get_beta_values(sub)
+                if sorted(got_) != sorted(sub) or any(float(got_[n_]) != float(e_all[n_]) for n_ in sub):
+                    ctx.fail('I03.results', f'estimates requested for {sub}: {dict(got_)}, the estimates are {dict(e_all)}')
+                if sub != sorted(sub) or len(sub) < len(names_u):
+                    ctx.probe('estimates requested by name for a subset / another order')
             p0 = r0.get_estimated_parameters(only_robust=False)
             p1 = r1.get_estimated_parameters(only_robust=False)
             if self.cfg.get('save_iter'):
